@@ -7,6 +7,7 @@ package main
 // value for the path-bound field ("user_id":"from-body") -- and closes. The handler records user_id and
 // text of every message. The first message must carry the captured value whatever the frame says; the
 // second message carries what its frame says (parameters are applied to the first message only).
+// With a fourth field (E / B) an empty text / binary frame is sent before the first message.
 
 import (
 	"context"
@@ -96,7 +97,19 @@ func c07wRun(o *out, input string) {
 		}
 	}
 	first += "}"
-	for _, payload := range []string{first, `{"text":"two","user_id":"second-frame"}`} {
+	payloads := []string{first, `{"text":"two","user_id":"second-frame"}`}
+	if len(f) > 4 {
+		// an empty data frame before the first message (E: text, B: binary)
+		fr := ws.NewTextFrame(nil)
+		if f[4] == "B" {
+			fr = ws.NewBinaryFrame(nil)
+		}
+		if err := ws.WriteFrame(conn, ws.MaskFrameInPlace(fr)); err != nil {
+			o.emit(input, "write-error")
+			return
+		}
+	}
+	for _, payload := range payloads {
 		if err := ws.WriteFrame(conn, ws.MaskFrameInPlace(ws.NewTextFrame([]byte(payload)))); err != nil {
 			o.emit(input, "write-error")
 			return
@@ -127,6 +140,16 @@ func c07wGen(o *out) {
 			for _, body := range []string{"-", "user_id", "userId", "user_id.message_id"} {
 				o.count("websocket")
 				c07wRun(o, fmt.Sprintf("C07W %s %s %s", hx([]byte(capture)), q, body))
+			}
+		}
+	}
+	// an empty frame first: whether or not the call survives it, a message that reaches the handler first
+	// carries the captured value
+	for _, lead := range []string{"E", "B"} {
+		for _, q := range []string{"-", "user_id"} {
+			for _, body := range []string{"-", "user_id", "userId"} {
+				o.count("websocket-empty-frame-first")
+				c07wRun(o, fmt.Sprintf("C07W %s %s %s %s", hx([]byte("room1")), q, body, lead))
 			}
 		}
 	}
